@@ -45,27 +45,43 @@ pub fn token_bytes_from_tokenizer_json(tokenizer_json: &Value) -> Result<Vec<Vec
     let mut is_byte_fallback = false;
     let mut space_ch = ' ';
 
-    let decoder = &tokenizer_json["decoder"];
-    if decoder["type"].as_str() == Some("ByteLevel") {
-        is_byte_level = true;
-    } else if decoder["type"].as_str() == Some("Sequence") {
-        if let Some(decoders) = decoder["decoders"].as_array() {
-            for decoder in decoders {
-                if decoder["type"].as_str() == Some("ByteFallback") {
-                    is_byte_fallback = true;
-                } else if decoder["type"].as_str() == Some("Replace")
-                    && decoder["content"].as_str() == Some(" ")
-                {
-                    if let Some(s) = decoder["pattern"]["String"].as_str() {
-                        let s: Vec<char> = s.chars().collect();
-                        if s.len() == 1 {
-                            space_ch = s[0];
-                        }
+    // Sequence decoders can be nested (the HuggingFace adapter in toktrie_hf_tokenizers
+    // walks them recursively as well).
+    fn check_decoder(
+        decoder: &Value,
+        is_byte_fallback: &mut bool,
+        is_byte_level: &mut bool,
+        space_ch: &mut char,
+    ) {
+        match decoder["type"].as_str() {
+            Some("ByteLevel") => *is_byte_level = true,
+            Some("ByteFallback") => *is_byte_fallback = true,
+            Some("Replace") if decoder["content"].as_str() == Some(" ") => {
+                if let Some(s) = decoder["pattern"]["String"].as_str() {
+                    let s: Vec<char> = s.chars().collect();
+                    if s.len() == 1 {
+                        *space_ch = s[0];
                     }
                 }
             }
+            Some("Sequence") => {
+                if let Some(decoders) = decoder["decoders"].as_array() {
+                    for d in decoders {
+                        check_decoder(d, is_byte_fallback, is_byte_level, space_ch);
+                    }
+                }
+            }
+            _ => {}
         }
     }
+
+    let decoder = &tokenizer_json["decoder"];
+    check_decoder(
+        decoder,
+        &mut is_byte_fallback,
+        &mut is_byte_level,
+        &mut space_ch,
+    );
 
     if !is_byte_fallback && !is_byte_level {
         bail!("can't determine decoder type: {:?}", decoder["type"]);
